@@ -27,7 +27,7 @@ def run(ctx):
             d = S.parse_spec(case["specs"][0])[0]
             pieces = sum(1 for ch in case["fen"].split()[0] if ch.isalpha())
             # the reference is exponential (full width + quiescence): keep it affordable
-            if d > (3 if pieces <= 4 else 2 if pieces <= 8 else 1):
+            if pieces > 12 or d > (3 if pieces <= 4 else 2 if pieces <= 7 else 1):
                 continue
             items.append("vroot_case %s [%s] %d%%nat" % (B.coq_str(case["fen"]), "; ".join(B.coq_str(m) for m in case["moves"]), d))
             idx.append(i)
